@@ -33,9 +33,9 @@ func c13Lexemes(ctx *Ctx, kind int) []lexeme {
 		switch c := r.Intn(12); {
 		case c == 0:
 			if kind == 1 {
-				lx = lexeme{pick("abc", "x1", "_y", "Zed", "é", "ñandú", "a日本", "q_9", "Añ", "ÿ", "Louÿs", "Àÿ", "aĀ"), tokenizers.Word, "identifier"}
+				lx = lexeme{pick("abc", "x1", "_y", "Zed", "é", "ñandú", "a日本", "q_9", "Añ", "ÿ", "Louÿs", "Àÿ", "aĀ", "e٣", "E５", "e", "Ex", "e_1", "a٣"), tokenizers.Word, "identifier"}
 			} else {
-				lx = lexeme{pick("abc", "x1", "y_", "Zed", "é", "日本", "a-b", "ключ", "q_9", "ÿ", "Louÿs", "Àÿ", "Āa", "\ufffe"), tokenizers.Word, "identifier"}
+				lx = lexeme{pick("abc", "x1", "y_", "Zed", "é", "日本", "a-b", "ключ", "q_9", "ÿ", "Louÿs", "Àÿ", "Āa", "\ufffe", "٣x", "５m", "९", "e5", "E"), tokenizers.Word, "identifier"}
 			}
 		case c == 1 && kind == 1:
 			kw := pick("AND", "OR", "NOT", "XOR", "LIKE", "IS", "IN", "NULL", "TRUE", "FALSE")
@@ -89,7 +89,7 @@ func c13Lexemes(ctx *Ctx, kind int) []lexeme {
 			}
 		default:
 			if kind == 1 {
-				lx = lexeme{pick("+", "-", "*", "(", ")", "[", "]", ",", "=", "<", ">", "%", "^", "!", "@", "$", "/"), tokenizers.Symbol, "symbol1"}
+				lx = lexeme{pick("+", "-", "*", "(", ")", "[", "]", ",", "=", "<", ">", "%", "^", "!", "@", "$", "/", "٣", "５", "日", "€"), tokenizers.Symbol, "symbol1"}
 			} else {
 				lx = lexeme{pick("+", "*", "(", ")", "[", "]", ",", "=", "<", ">", "%", "^", "!", "@", "$", "/"), tokenizers.Symbol, "symbol1"}
 			}
@@ -117,7 +117,20 @@ func canFollow(kind int, a, b lexeme) bool {
 	case "identifier", "keyword":
 		return !wordish(first)
 	case "integer", "decimal", "scientific":
-		return !digitish(first) && !(kind == 0 && wordish(first) && false)
+		isDigit := func(r rune) bool { return r >= '0' && r <= '9' }
+		if kind == 0 { // generic: only ASCII digits and the dot continue a number (a dot after a decimal does not)
+			return !isDigit(first) && !(first == '.' && a.cls == "integer") && first != '.'
+		}
+		if first == 'e' || first == 'E' { // an exponent needs a digit, or a sign and a digit
+			if a.cls == "scientific" {
+				return true
+			}
+			if len(br) > 1 && (isDigit(br[1]) || ((br[1] == '+' || br[1] == '-') && len(br) > 2 && isDigit(br[2]))) {
+				return false
+			}
+			return len(br) > 1 || false // a lone e at the very end of b could still meet digits of the NEXT lexeme: be conservative
+		}
+		return !digitish(first)
 	case "quoted":
 		return first != ar[0] // a following quote of the same kind would read as a doubled quote
 	case "comment":
